@@ -117,10 +117,15 @@ class _Walker:
             self.expr(ch, stmt, ctx)
 
     # statements --------------------------------------------------------
-    def block(self, body: List[ast.stmt], ctx: Ctx) -> None:
+    def block(self, body: List[ast.stmt], ctx: Ctx) -> Tuple[Atom, ...]:
+        """Walk a statement list; returns the guard atoms established for whatever follows the list
+        (negations of early exits at its top level)."""
         cur = ctx
+        n0 = len(ctx.guards)
         for st in body:
-            self.stmt(st, cur)
+            extra = self.stmt(st, cur)
+            if extra:
+                cur = cur.with_(guards=cur.guards + tuple(extra))
             # early exits contribute the negated test to the rest of the block
             if isinstance(st, ast.If):
                 b_exit = block_always_exits(st.body)
@@ -131,8 +136,9 @@ class _Walker:
                     cur = cur.with_(guards=cur.guards + tuple(atoms(st.test, True)))
             elif isinstance(st, ast.Assert):
                 cur = cur.with_(guards=cur.guards + tuple(atoms(st.test, True)))
+        return cur.guards[n0:]
 
-    def stmt(self, st: ast.stmt, ctx: Ctx) -> None:
+    def stmt(self, st: ast.stmt, ctx: Ctx) -> Tuple[Atom, ...]:
         if isinstance(st, (ast.FunctionDef, ast.AsyncFunctionDef, ast.ClassDef)):
             self.emit(st, st, ctx)
             for d in st.decorator_list:
@@ -140,7 +146,7 @@ class _Walker:
             if isinstance(st, FUNC_NODES):
                 for d in st.args.defaults + [k for k in st.args.kw_defaults if k is not None]:
                     self.expr(d, st, ctx)
-            return
+            return ()
         self.emit(st, st, ctx)
         if isinstance(st, ast.If):
             self.expr(st.test, st, ctx)
@@ -166,7 +172,8 @@ class _Walker:
                 if it.optional_vars is not None:
                     self.expr(it.optional_vars, st, ctx)
                 locks = locks + (lock_expr_of_with(it),)
-            self.block(st.body, ctx.with_(locks=locks))
+            # early exits at the top level of a with-body also guard what follows the with statement
+            return self.block(st.body, ctx.with_(locks=locks))
         elif isinstance(st, ast.Try):
             has_h = bool(st.handlers)
             bctx = ctx.with_(tries=ctx.tries + (st,),
@@ -185,6 +192,7 @@ class _Walker:
                     self.expr(ch, st, ctx)
                 elif isinstance(ch, ast.keyword):
                     self.expr(ch.value, st, ctx)
+        return ()
 
 
 _SITE_CACHE: Dict[int, List[Site]] = {}
